@@ -429,7 +429,7 @@ func TestC10(t *testing.T) {
 			run.Require("scripted|" + name)
 		}
 	}
-	n := run.Pick(8000, 2000000)
+	n := run.Pick(20000, 16000000)
 	for i := 0; i < n; i++ {
 		if !run.Mine(i) {
 			continue
